@@ -23,6 +23,35 @@ type c06Case struct {
 	// Again: Assemble is called this many more times on the same Program value; the list judged is the one returned by
 	// the last call (a builder may refuse to assemble twice - no claim then - but must not return a different program).
 	Again int `json:"again,omitempty"`
+	// Huge: instead of Prog, a very long program described by a few numbers (see hugeProgram): jumps whose targets lie
+	// beyond instruction 65535 and 131071 - "however far away it is".
+	Huge *c06Huge `json:"huge,omitempty"`
+}
+
+type c06Huge struct {
+	N       int    `json:"n"`       // number of label-level instructions
+	Targets []int  `json:"targets"` // far targets (indices), ascending; jump k sits at index 2k+1 and goes there when its test holds
+	NonRet  bool   `json:"nonret"`  // the targets are loads followed by a return instead of returns
+	Val     uint32 `json:"val"`
+}
+
+// hugeProgram: load; jump -> Targets[0]; load; jump -> Targets[1]; ...; ret; then fillers (returns with distinct values)
+// up to N, with the targets in between.
+func hugeProgram(h *c06Huge) labelvm.Program {
+	p := make(labelvm.Program, h.N)
+	for i := range p {
+		p[i] = labelvm.Ins{Kind: labelvm.Ret, Val: 0x20000000 + uint32(i)}
+	}
+	k := len(h.Targets)
+	for j, tgt := range h.Targets {
+		p[2*j] = labelvm.Ins{Kind: labelvm.Load, Hi: j%2 == 1}
+		p[2*j+1] = labelvm.Ins{Kind: labelvm.Jump, Cond: c06Conds[j%len(c06Conds)], Val: h.Val + uint32(j), T: tgt, F: 2*j + 2, Next: j%2 == 0}
+		if h.NonRet && tgt+1 < h.N {
+			p[tgt] = labelvm.Ins{Kind: labelvm.Load}
+		}
+	}
+	p[2*k] = labelvm.Ins{Kind: labelvm.Ret, Val: 0x7fff0000}
+	return p
 }
 
 func mix(a, b uint64) uint64 {
@@ -37,6 +66,18 @@ var c06Conds = []int{int(bpf.JumpEqual), int(bpf.JumpNotEqual), int(bpf.JumpGrea
 
 // drawLabelProgram generates a well-formed label program by construction.
 func drawLabelProgram(t *rapid.T) c06Case {
+	if rapid.IntRange(0, 199).Draw(t, "huge") == 0 {
+		h := &c06Huge{NonRet: rapid.Bool().Draw(t, "hugeNonRet"), Val: rapid.Uint32().Draw(t, "hugeVal")}
+		base := []int{65536, 65536, 131072}[rapid.IntRange(0, 2).Draw(t, "hugeBase")]
+		nt := rapid.IntRange(1, 3).Draw(t, "hugeJumps")
+		at := base + rapid.IntRange(-6, 10).Draw(t, "hugeFirst")
+		for j := 0; j < nt; j++ {
+			h.Targets = append(h.Targets, at)
+			at += rapid.IntRange(2, 300).Draw(t, "hugeStep")
+		}
+		h.N = at + rapid.IntRange(1, 50).Draw(t, "hugeTail")
+		return c06Case{Huge: h, Seed: rapid.Uint64().Draw(t, "seed")}
+	}
 	sizeClass := rapid.IntRange(0, 9).Draw(t, "sizeClass")
 	var n int
 	switch {
@@ -206,6 +247,12 @@ func checkC06(raw json.RawMessage) (ev.Result, error) {
 		return ev.Result{}, ev.Inconclusivef("bad case: %v", err)
 	}
 	p := c.Prog
+	if c.Huge != nil {
+		if c.Huge.N < 10 || c.Huge.N > 400000 || len(c.Huge.Targets) == 0 || 2*len(c.Huge.Targets)+1 >= c.Huge.Targets[0] || c.Huge.Targets[len(c.Huge.Targets)-1] >= c.Huge.N-1 {
+			return ev.Result{}, ev.Inconclusivef("ill-formed huge program")
+		}
+		p = hugeProgram(c.Huge)
+	}
 	if err := p.Validate(); err != nil {
 		return ev.Result{}, ev.Inconclusivef("generator produced an ill-formed program: %v", err)
 	}
@@ -228,6 +275,9 @@ func checkC06(raw json.RawMessage) (ev.Result, error) {
 	}
 	if c.Again > 0 {
 		res.Classes = append(res.Classes, "assembled-more-than-once")
+	}
+	if c.Huge != nil {
+		res.Classes = append(res.Classes, "target-beyond-instruction-65535")
 	}
 	prog, err := toRaw(insts)
 	if err != nil {
